@@ -1382,10 +1382,33 @@ class Sim:
     def _mark_group_cancelled(self, pc, name, req, prop):
         req.cancelled_seq = self.seq
         del pc.live_names[name]
+        # ---- coverage probes for the placement classes named in C07's quantifier (statistics only;
+        #      the peek at private attributes never feeds a verdict)
+        ctx = self._ctx
+        if ctx is not None:
+            obj = ctx[1]
+            own = (getattr(obj, "req", None) is req) or (obj is req)
+            self.stats["place:cancel_from_" + ("own_group_" if own else "other_") + ctx[0]] += 1
+        else:
+            self.stats["place:cancel_from_caller"] += 1
         if not req.spawner_done():
             self.stats["fault:spawner_cancelled"] += 1
             if not req.calls and not req.pulls:
                 self.stats["place:cancel_before_spawner_ran"] += 1
+            else:
+                try:
+                    handed = any(w.done() and not w.cancelled() for w in (pc.pool._enough_room._waiters or ()))
+                except Exception:
+                    handed = False
+                running = sum(1 for t in req.tasks if t.state in ("U", "L", "C"))
+                if handed:
+                    self.stats["place:cancel_after_slot_handed_over_before_spawner_resumed"] += 1
+                elif req.nc is not None and running >= req.nc:
+                    self.stats["place:cancel_while_waiting_for_map_slot"] += 1
+                elif pc.size is not None and pc.n_run + pc.n_C >= pc.size:
+                    self.stats["place:cancel_while_waiting_for_pool_room"] += 1
+                else:
+                    self.stats["place:cancel_spawner_other"] += 1
         else:
             self.stats["place:cancel_after_spawner_done"] += 1
         for t in self._group_targets(req):
